@@ -2,6 +2,11 @@
 """Prints the brief for an independent 'seeded breakage' sub-agent: seed_prompt.py <ID> [n]"""
 import sys, json
 ID=sys.argv[1]; n=sys.argv[2] if len(sys.argv)>2 else "1"
+avoid=""
+import os
+mp=f"/verif/seeded/{ID}/meta.json"
+if n!="1" and os.path.exists(mp):
+    avoid="\n- An earlier seeding already used this idea, so pick a DIFFERENT mechanism and a different code site: "+json.load(open(mp)).get("needs","")+"."
 p=[json.loads(l) for l in open('/verif/properties.jsonl') if json.loads(l)['id']==ID][0]
 wt=f"/tmp/seed-{ID}-{n}"
 print(f"""You are helping to evaluate a verification effort for the Go project baidu/bfe (a layer-7 load balancer). Your job: produce ONE realistic change to bfe that BREAKS the following semantic property while the code still compiles and bfe's existing tests still pass.
@@ -20,5 +25,6 @@ Rules
 - Write a demonstration: a Go test file (in the touched package, named zz_seed_demo_test.go) or a small program that FAILS with your change and PASSES on the unchanged code. Run it both ways and report both results. The demonstration should show the property being violated in terms of the statement above (observable behaviour), not just that the code differs.
 - Never use `git stash` (the stash is shared by all worktrees of /repo and other agents work in parallel); to run the demo on unchanged code use `git diff > /tmp/p.diff; git apply -R /tmp/p.diff; ...; git apply /tmp/p.diff`.
 - Deliver in the directory {wt}-out/ (create it): patch.diff (`git -C {wt} diff` of the change to bfe only, without the demo file), the demo file, and notes.md (what the change is, why it breaks the property, what it needs in order to manifest, exact commands you ran and their results).
+{avoid.strip()}
 - When everything is delivered, remove the worktree: `git -C /repo worktree remove --force {wt}` (keep {wt}-out/).
 Reply with a short summary: the idea of the change, what is needed to trigger it, test/demonstration results, and the output directory.""")
